@@ -36,6 +36,9 @@ class TableBroken(Exception):
     pass
 
 
+_EDITS = [0]
+
+
 def setup(ctx):
     import icontract
     from netqasm.lang.instr import flavour as fl
@@ -111,6 +114,9 @@ def cases(ctx):
                     vals = codec.rand_values(rng, isa.TABLE[flav][m][1])
                     vals = [0 if isinstance(v, int) else v for v in vals]
                     yield {"kind": "single", "flavour": flav, "version": ver, "app_id": 0, "instrs": [[m, vals]]}
+    if ctx.shard == 0:
+        for flav in ("vanilla", "nv"):
+            yield {"kind": "threaded-decode", "flavour": flav, "threads": 4, "rounds": ctx.n(60, 4000), "seed": rng.randrange(2**31)}
     nseq = ctx.n(300, 400000)
     for _ in range(nseq):
         flav = rng.choice(["vanilla", "nv", "reids"])
@@ -196,7 +202,8 @@ def _roundtrip(ctx, case, flav, version, app_id, instrs, fobj=None, mutate=None)
         k_ = ctx.rng.randrange(len(objs))
         m_ = instrs[k_][0]
         nv_ = codec.rand_values(ctx.rng, isa.TABLE[flav][m_][1])
-        codec.edit_in_place(sub.instructions[k_], codec.mk_instr(fobj, flav, m_, nv_))
+        _EDITS[0] += 1
+        codec.edit_in_place(sub.instructions[k_], codec.mk_instr(fobj, flav, m_, nv_), nested=_EDITS[0] % 2 == 0)
         want_ = [[m, v] for m, v in instrs]
         for i_ in range(len(objs)):
             if objs[i_] is objs[k_]:          # (an object listed twice shows the edit at both positions)
@@ -245,9 +252,57 @@ def _deserializers():
     return _DESER
 
 
+def _threaded_decode(ctx, case):
+    """One controller thread per node is the normal threaded deployment: several threads decode the subroutines they received
+    at the same time through the module's deserialize() (default flavour and explicit flavour). Each must get its own program."""
+    import random
+    import sys
+    import threading
+    from netqasm.lang.parsing import deserialize
+    n, rounds, flav = case["threads"], case["rounds"], case["flavour"]
+    fobj = codec.flavour_obj(flav)
+    names = sorted(isa.TABLE[flav])
+    errors = []
+    old = sys.getswitchinterval()
+    sys.setswitchinterval(1e-6)
+    barrier = threading.Barrier(n)
+
+    def worker(t):
+        rng = random.Random(case["seed"] * 31 + t)
+        barrier.wait()
+        for r in range(rounds):
+            ins = [[m, codec.rand_values(rng, isa.TABLE[flav][m][1])] for m in (rng.choice(names) for _ in range(rng.randrange(1, 120)))]
+            app = 257 * (t + 1) + (r % 7)
+            raw = isa.encode_subroutine(flav, [t, r % 256], app, ins)
+            try:
+                dec = deserialize(raw) if (flav == "vanilla" and r % 2 == 0) else deserialize(raw, flavour=fobj)
+                got = [codec.describe_instr(i) for i in dec.instructions]
+                head = (tuple(dec.netqasm_version), dec.app_id)
+            except Exception as e:
+                errors.append(f"thread {t} round {r}: {type(e).__name__}: {str(e)[:80]}")
+                return
+            if got != ins or head != ((t, r % 256), app):
+                errors.append(f"thread {t} round {r}: {len(ins)} instructions for app {app} decode as {len(got)} instructions for app {head[1]}")
+                return
+    try:
+        ths = [threading.Thread(target=worker, args=(t,)) for t in range(n)]
+        for th in ths:
+            th.start()
+        for th in ths:
+            th.join(300)
+    finally:
+        sys.setswitchinterval(old)
+    ctx.count("threaded_decodes", n * rounds)
+    if errors:
+        ctx.fail(case, f"{flav}: subroutines decoded concurrently by different threads come back wrong: " + errors[0])
+    ctx.case(case, True)
+
+
 def run_case(ctx, case):
     kind = case["kind"]
     flav = case["flavour"]
+    if kind == "threaded-decode":
+        return _threaded_decode(ctx, case)
     if kind == "tables":
         _state["table_violations"] = {}
         fobj = codec.fresh_flavour(flav)
